@@ -19,7 +19,11 @@
    the model is the fold of change_signature (Proofs.C18_Seq.cs_seq), the oracle the fold of Spec.Rename.ren_action,
    admissibility is demanded of every step on the action as renamed so far (admissible_seqb), and the side condition
    checked is the one of theorem C18_rename_seq (ok_seq).
-   Verdicts per case: signature, text, then (applicability, successor) per probe. *)
+   Isolation: Action.change_signature is a method of ONE action; the model is a function of that action alone, so it
+   predicts that the declarations of the domain (domain.predicates, domain.functions) and the other actions print after
+   the call(s) what they printed before (an object shared between the action and its domain, renamed in place, shows
+   here).  Demanded of every case, whatever the mapping.
+   Verdicts per case: signature, text, isolation, then (applicability, successor) per probe. *)
 From Coq Require Import List Ascii String Bool Arith PrimFloat.
 From Verif Require Import Base.Result Base.Str Base.Sexp Base.PyDict Base.Float
   Model.Tokenizer Model.Types Model.Domain Model.Exec Model.ChangeSignature Model.ChangeSignatureAlpha
@@ -48,6 +52,9 @@ Record rcase := {
   r_sig : obs (list (string * string));              (* signature after the last call (name, type name), or raised *)
   r_print0 : string;                                 (* the action's text before the call *)
   r_print1 : obs string;                             (* ... after the last call *)
+  r_rest0 : string;                                  (* the REST of the domain before the call: declared predicates and
+                                                        functions, the other actions (printed by the library) *)
+  r_rest1 : obs string;                              (* ... after the last call *)
   r_probes : list rprobe
 }.
 
@@ -349,6 +356,9 @@ Definition judge (c : rcase) : list verdict :=
                    end
                | Raised => false end;
        v_known := known |} in
+  (* isolation: the rest of the domain prints what it printed before *)
+  let untouched := obs_eqb String.eqb (Returned (r_rest0 c)) (r_rest1 c) in
+  let v_iso := {| v_agree := untouched; v_ok := untouched; v_known := false |} in
   (* probes *)
   let v_probes :=
     flat_map (fun q =>
@@ -368,7 +378,7 @@ Definition judge (c : rcase) : list verdict :=
                       | None => false end;
            v_ok := negb judged || negb consistent_probe || obs_eqb state_equiv (q_succ1 q) (q_succ0 q);
            v_known := known |} ]) (r_probes c) in
-  v_sig :: v_txt :: v_probes.
+  v_sig :: v_txt :: v_iso :: v_probes.
 
 Definition run (cs : list rcase) : string := t2s (map verdict_char (flat_map judge cs)).
 
